@@ -142,6 +142,20 @@ def lean_files():
     return sorted(res)
 
 
+def import_closure(modules):
+    """the project files a list of modules depends on (transitively, through `import Honeycomb.…` / `import Driver.…`)"""
+    seen, todo = [], list(modules)
+    while todo:
+        m = todo.pop()
+        path = os.path.join(LEAN, *m.split(".")) + ".lean"
+        if path in seen or not os.path.exists(path):
+            continue
+        seen.append(path)
+        for imp in re.findall(r"^import\s+((?:Honeycomb|Driver)(?:\.\w+)*)", strip_comments(open(path).read()), re.M):
+            todo.append(imp)
+    return sorted(seen)
+
+
 def grep_forbidden(files=None):
     hits = []
     for p in files or lean_files():
